@@ -2,6 +2,7 @@ package cond
 
 import (
 	"database/sql"
+	"database/sql/driver"
 	"fmt"
 	"sort"
 	"strconv"
@@ -41,6 +42,38 @@ func (x g) pick(s []string) string { return s[x.n(len(s))] }
 // N, Pct: the draw helpers for property packages.
 func (x g) N(k int) int    { return x.n(k) }
 func (x g) Pct(p int) bool { return x.pct(p) }
+
+// StrList / IntSum are slice types that implement driver.Valuer: as a condition
+// value they are ONE value (their Value()), not a list - BuildCondition routes
+// them to clause.Eq on purpose.
+type StrList []string
+
+func (l StrList) Value() (driver.Value, error) { return strings.Join(l, ""), nil }
+
+type IntSum []int
+
+func (l IntSum) Value() (driver.Value, error) {
+	n := 0
+	for _, v := range l {
+		n += v
+	}
+	return int64(n), nil
+}
+
+// valuerFor wraps the scalar into the Valuer slice whose Value() is the scalar.
+func valuerFor(v Val) interface{} {
+	if v.Str {
+		l := StrList{}
+		for i := 0; i < len(v.S); i++ {
+			l = append(l, v.S[i:i+1])
+		}
+		return l
+	}
+	if v.I > 0 {
+		return IntSum{v.I - 1, 1}
+	}
+	return IntSum{0, 0}
+}
 
 // ---- raw SQL strings ---------------------------------------------------------------------------
 
@@ -404,6 +437,14 @@ func (r *clauseR) expr(n *Node, top bool) (clause.Expression, string) {
 			return r.leaf(n)
 		}
 		c, cd := r.column(n.Col)
+		if (n.Op == OpEq || n.Op == OpNe) && r.pct(15) {
+			r.feats["value:valuer-slice"] = true
+			v := valuerFor(n.V)
+			if n.Op == OpEq {
+				return clause.Eq{Column: c, Value: v}, "Eq{" + cd + "," + goString(v) + "}"
+			}
+			return clause.Neq{Column: c, Value: v}, "Neq{" + cd + "," + goString(v) + "}"
+		}
 		switch n.Op {
 		case OpEq:
 			return clause.Eq{Column: c, Value: n.V.Go()}, "Eq{" + cd + "," + n.V.String() + "}"
@@ -523,6 +564,10 @@ func goString(a interface{}) string {
 		return fmt.Sprintf("[]int%v", v)
 	case []string:
 		return fmt.Sprintf("[]string%q", v)
+	case StrList:
+		return fmt.Sprintf("StrList%q", []string(v))
+	case IntSum:
+		return fmt.Sprintf("IntSum%v", []int(v))
 	}
 	return fmt.Sprintf("%T(%v)", a, a)
 }
